@@ -6,16 +6,93 @@ def run(tier, seed):
   from harness import svcmon
   return svcrun.run_service_check(
       'C01', tier, seed,
-      rule=('adaptively generated RPC sequences (17 RPC kinds, ~2/3 legal calls, every error kind reached) over 2 owners, 3 studies '
+      rule=('all 17 handler bodies are regenerated from vizier_service.py and proved equal to the model\'s handler programs at every run; '
+            'adaptively generated RPC sequences (17 RPC kinds, ~2/3 legal calls, every error kind reached) over 2 owners, 3 studies '
             '(one name a prefix of another), 3 workers, scripted Pythia; run on RAM and in-memory SQLite, every step compared '
             'with the model (response, datastore-call trace) plus final stored state; non-trivial = at least 3 successful calls'),
-      monitors=[svcrun.wrap(svcmon.c01_step)], backends=('ram', 'sqlmem'), extra=extras)
+      monitors=[svcrun.wrap(svcmon.c01_step)], backends=('ram', 'sqlmem'), extra=extras, pre=regenerate_handlers,
+      trusted_extra=['harness/translate/svchandlers.py (14 RPC handler bodies statement by statement), svcsuggest.py, svcearlystop.py, svcoptimal.py (SuggestTrials, '
+                     'CheckTrialEarlyStoppingState, ListOptimalTrials block by block: the statements of each block are pinned, their meaning is given in coq/Model/*IR.v); '
+                     'fail-closed; what each assumes by hand is listed at the top of the file'])
+
+
+def regenerate_handlers():
+  return svcrun.regenerate_handler_sources()
 
 
 def extras(rep, tier, seed, known, r):
   b1, c1 = failing_writes_between_updates(rep, tier, seed, known, r)
   b2, c2 = sibling_studies(rep, tier, seed, known, r)
-  return (b1 or b2), (c1 or c2)
+  b3, c3 = sibling_deletions(rep, tier, seed, known, r)
+  b4, c4 = illegal_matrix(rep, tier, seed, known, r)
+  return (b1 or b2 or b3 or b4), (c1 or c2 or c3 or c4)
+
+
+def illegal_matrix(rep, tier, seed, known, r):
+  """Systematic: a trial brought into each state (ACTIVE, STOPPING, SUCCEEDED, INFEASIBLE, REQUESTED, deleted), with and without an
+  early-stopping operation stored for it from the time it was ACTIVE, then EVERY trial-level call on it in turn (and a second
+  round of them): each must end as the documented table says, whatever was stored for the trial earlier."""
+  from harness import svcmon
+
+  def seqgen(rr):
+    target = seqgen.targets[seqgen.i % len(seqgen.targets)]
+    with_es = (seqgen.i // len(seqgen.targets)) % 2 == 0
+    seqgen.i += 1
+    seq = [('CreateStudy', 1, 1, False, 'SS_ACTIVE', [(1, True)]),
+           ('SuggestTrials', 1, 1, 1, 2, ('deliver', [rr.randrange(100), rr.randrange(100)], [], [])),
+           ('CreateTrial', 1, 1, 30, 'REQUESTED', [], [])]
+    tid = 3 if target == 'REQUESTED' else 1
+    if with_es and target != 'REQUESTED':
+      seq.append(('CheckEarlyStop', True, 1, 1, tid, ('decide', [(tid, False)], [], [])))
+    if target == 'STOPPING':
+      seq.append(('StopTrial', 1, 1, tid))
+    elif target == 'SUCCEEDED':
+      seq.append(('CompleteTrial', 1, 1, tid, [(1, 2)], False))
+    elif target == 'INFEASIBLE':
+      seq.append(('CompleteTrial', 1, 1, tid, [], True))
+    elif target == 'DELETED':
+      seq.append(('DeleteTrial', 1, 1, tid))
+    probes = [('CheckEarlyStop', True, 1, 1, tid, ('decide', [(tid, True)], [], [])),
+              ('AddTrialMeasurement', 1, 1, tid, [(1, 1)]),
+              ('StopTrial', 1, 1, tid),
+              ('CheckEarlyStop', rr.random() < 0.5, 1, 1, tid, ('decide', [(tid, False), (2, True)], [], [])),
+              ('CompleteTrial', 1, 1, tid, [(1, 3)], False),
+              ('GetTrial', 1, 1, tid),
+              ('UpdateMetadata', 1, 1, [], [(tid, ('', 'k', 0, 'v'))])]
+    rr.shuffle(probes)
+    seq += probes
+    seq += [('CheckEarlyStop', True, 1, 1, tid, ('decide', [(tid, True)], [], [])), ('ListTrials', 1, 1)]
+    return seq
+  seqgen.targets = ['SUCCEEDED', 'INFEASIBLE', 'STOPPING', 'ACTIVE', 'REQUESTED', 'DELETED']
+  seqgen.i = 0
+  return svcrun.service_part(rep, 'C01', r, tier, known, monitors=[svcrun.wrap(svcmon.c01_step)], backends=('ram', 'sqlmem'),
+                             nseq_quick=12, nseq_thorough=48, tag='illegal', seqgen=seqgen)
+
+
+def sibling_deletions(rep, tier, seed, known, r):
+  """Systematic: the three studies of one owner whose names resemble each other (a_b, a_b2, axb: prefix / SQL LIKE pattern), each
+  with completed and active trials; each study in turn is deleted (and sometimes re-created): the trials of the others stay."""
+  from harness import svcmon
+
+  def seqgen(rr):
+    seq = []
+    for sid in (1, 2, 3):
+      seq.append(('CreateStudy', 1, sid, False, 'SS_ACTIVE', [(1, True)]))
+      seq.append(('SuggestTrials', 1, sid, 1, 2, ('deliver', [rr.randrange(100), rr.randrange(100)], [], [])))
+      seq.append(('CompleteTrial', 1, sid, 1, [(1, rr.randrange(5))], False))
+    order = [1, 2, 3]
+    rr.shuffle(order)
+    for victim in order[:rr.choice([1, 2])]:
+      seq.append(('DeleteStudy', 1, victim))
+      for sid in (1, 2, 3):
+        seq.append(('ListTrials', 1, sid))
+        seq.append(('GetTrial', 1, sid, 1))
+      if rr.random() < 0.5:
+        seq.append(('CreateStudy', 1, victim, False, 'SS_ACTIVE', [(1, True)]))
+        seq.append(('ListTrials', 1, victim))
+    return seq
+  return svcrun.service_part(rep, 'C01', r, tier, known, monitors=[svcrun.wrap(svcmon.c01_step)], backends=('ram', 'sqlmem'),
+                             nseq_quick=4, nseq_thorough=24, tag='sibdel', seqgen=seqgen)
 
 
 def sibling_studies(rep, tier, seed, known, r):
